@@ -241,13 +241,8 @@ theorem chanPut_eq : Nsq.Gen.Chan.chanPut = ([
   "send c.memoryMsgChan <- m",
   "assign err := writeMessageToBackend(m, c.backend)"] : List String) := by decide
 
-/-- C02 (seeded C02-m2): `StartInFlightTimeout` stamps owner, delivery time and deadline on the message BEFORE it becomes findable in the in-flight map (`pushInFlightMessage`), then inserts it into the heap: a late answer of the previous holder can never meet a stale `clientID`. -/
+/-- C02 (seeded C02-m2): `StartInFlightTimeout` stamps owner, delivery time and deadline on the message BEFORE it becomes findable in the in-flight map (`pushInFlightMessage`, which since F48 inserts into map AND deadline heap in one critical section): a late answer of the previous holder can never meet a stale `clientID`. -/
 theorem startInFlight_eq : Nsq.Gen.Chan.startInFlight = ([
-  "assign msg.clientID = clientID",
-  "assign msg.deliveryTS = now",
-  "assign msg.pri = now.Add(timeout).UnixNano()",
-  "assign err := c.pushInFlightMessage(msg)",
-  "do c.addToInFlightPQ(msg)"] : List String) ∨ Nsq.Gen.Chan.startInFlight = ([
   "assign msg.clientID = clientID",
   "assign msg.deliveryTS = now",
   "assign msg.pri = now.Add(timeout).UnixNano()",
@@ -268,13 +263,8 @@ theorem topicPumpLoop_eq : Nsq.Gen.Chan.topicPumpLoop = ([
   "assign chans = chans[:0]",
   "assign chans = append(chans, c)"] : List String) := by decide
 
-/-- C02.7 (micro-step model `ChanMicro`): TOUCH is four critical sections in this order — map pop (the decision), heap removal, map push with the new deadline, heap push (`ansMapPop` | `ansFinish` | `touchMapPush` | `heapPush`). -/
+/-- C02.7 (micro-step model `ChanMicro`): TOUCH is three critical sections in this order — map pop (the decision), heap removal, map + heap push with the new deadline (`ansMapPop` | `ansFinish` | `touchMapPush`+`heapPush` in one section since F48). -/
 theorem touchMessage_eq : Nsq.Gen.Chan.touchMessage = ([
-  "assign msg, err := c.popInFlightMessage(clientID, id)",
-  "do c.removeFromInFlightPQ(msg)",
-  "assign msg.pri = newTimeout.UnixNano()",
-  "assign err = c.pushInFlightMessage(msg)",
-  "do c.addToInFlightPQ(msg)"] : List String) ∨ Nsq.Gen.Chan.touchMessage = ([
   "assign msg, err := c.popInFlightMessage(clientID, id)",
   "do c.removeFromInFlightPQ(msg)",
   "assign msg.pri = newTimeout.UnixNano()",
@@ -298,13 +288,8 @@ theorem popInFlight_eq : Nsq.Gen.Chan.popInFlight = ([
   "do delete(c.inFlightMessages, id)",
   "do c.inFlightMutex.Unlock()"] : List String) := by decide
 
-/-- C02.7: `pushInFlightMessage` is one critical section: refuse when the id is present, else insert (model: `delMapPush`, `touchMapPush`; the refusal is proved unreachable, `never_already_in_flight`). -/
+/-- C02.7: `pushInFlightMessage` is one critical section: refuse when the id is present, else insert into the map AND the deadline heap (F48; model: `delMapPush`, `touchMapPush` with `ChanMicroT.fixed = true`; the refusal is proved unreachable, `never_already_in_flight`). -/
 theorem pushInFlight_eq : Nsq.Gen.Chan.pushInFlight = ([
-  "do c.inFlightMutex.Lock()",
-  "assign _, ok := c.inFlightMessages[msg.ID]",
-  "do c.inFlightMutex.Unlock()",
-  "assign c.inFlightMessages[msg.ID] = msg",
-  "do c.inFlightMutex.Unlock()"] : List String) ∨ Nsq.Gen.Chan.pushInFlight = ([
   "do c.inFlightMutex.Lock()",
   "assign _, ok := c.inFlightMessages[msg.ID]",
   "do c.inFlightMutex.Unlock()",
@@ -312,15 +297,13 @@ theorem pushInFlight_eq : Nsq.Gen.Chan.pushInFlight = ([
   "do c.inFlightPQ.Push(msg)",
   "do c.inFlightMutex.Unlock()"] : List String) := by decide
 
-/-- audit A3 / fix F48 — EXACTLY two shapes of "register a message in flight" are accepted, consistently over the three
-functions: (pre-F48, `ChanMicroT` with `fixed = false`) `pushInFlightMessage` inserts into the map only and both callers
-push the heap in a second critical section (`addToInFlightPQ`); or (F48, `fixed = true`) `pushInFlightMessage` inserts into
-map and heap in one critical section and neither caller pushes again. A mixture (no heap push at all, or two) is refused. -/
+/-- audit A3 / fix F48 (/repo 88fd245, committed: ONLY this shape is accepted, audit B12) — `pushInFlightMessage` inserts
+into map AND heap in one critical section and neither caller pushes the heap again (`ChanMicroT` with `fixed = true`, the
+shape `Props.C04Micro.scan_complete_micro_fixed` is about). The pre-F48 shape (two critical sections: `ChanMicroT` with
+`fixed = false`, `scan_complete_micro_false`) and every mixture (no heap push at all, or two) break this tie. -/
 theorem inflightPushShape_eq :
-    ("do c.inFlightPQ.Push(msg)" ∉ Nsq.Gen.Chan.pushInFlight ∧ "do c.addToInFlightPQ(msg)" ∈ Nsq.Gen.Chan.startInFlight ∧
-      "do c.addToInFlightPQ(msg)" ∈ Nsq.Gen.Chan.touchMessage) ∨
-    ("do c.inFlightPQ.Push(msg)" ∈ Nsq.Gen.Chan.pushInFlight ∧ "do c.addToInFlightPQ(msg)" ∉ Nsq.Gen.Chan.startInFlight ∧
-      "do c.addToInFlightPQ(msg)" ∉ Nsq.Gen.Chan.touchMessage) := by decide
+    "do c.inFlightPQ.Push(msg)" ∈ Nsq.Gen.Chan.pushInFlight ∧ "do c.addToInFlightPQ(msg)" ∉ Nsq.Gen.Chan.startInFlight ∧
+      "do c.addToInFlightPQ(msg)" ∉ Nsq.Gen.Chan.touchMessage := by decide
 
 /-- C01 (seeded C01-m5): the channel's disk queue accepts records up to max-msg-size + 26 (`minValidMsgLength`: timestamp, attempts, id) — every body the front ends accept fits when the message overflows to the channel's disk (model: `enqueue` never refuses on a durable channel). -/
 theorem chanBackendNew_eq : Nsq.Gen.Chan.chanBackendNew = ([
